@@ -943,7 +943,7 @@ func (p *NewForm) typecheckForm(gammaNameTypesCtx NamesTypesCtx, providerShadowN
 
 			// If the new name is annotated with a type (x : A <- new f(...); ...), then the annotation
 			// has to be well formed and match the type provided by the function
-			if p.new_name_c.Type != nil && !new_name_reused {
+			if p.new_name_c.Type != nil {
 				types.AddMissingModalities(&p.new_name_c.Type, labelledTypesEnv)
 
 				if err := checkNameType(p.new_name_c, labelledTypesEnv); err != nil {
